@@ -273,27 +273,37 @@ class ExcAnalysis:
         self._dirty = True
         self._in_progress: set[int] = set()
         self.edges: dict[int, set[int]] = {}
+        self.redges: dict[int, set[int]] = {}
+        self._dirty_set: set[int] = set()
+        self._tg_cache: dict[int, tuple[list[Func] | None, str]] = {}
+        self._imp_cache: dict[int, list[tuple[ast.AST, Func]]] = {}
 
     # ------------------------------------------------------------------ public
     def escapes(self, fn: Func) -> list[Esc]:
-        """Least fixpoint of the escape summaries of everything reachable from fn."""
+        """Least fixpoint of the escape summaries of everything reachable from fn (worklist over the call graph)."""
         self._reach(fn)
-        changed = True
         rounds = 0
-        while changed:
-            changed = False
+        while self._dirty_set:
             rounds += 1
-            for f in list(self.funcs.values()):
-                new = self._analyse(f)
-                old = self.summ.get(id(f), {})
-                if set(new) - set(old):
-                    merged = dict(old)
-                    for k, v in new.items():
-                        merged.setdefault(k, v)
-                    self.summ[id(f)] = merged
-                    changed = True
-            if rounds > 40:
+            if rounds > 200000:
                 raise RuntimeError("exception summaries did not converge")
+            k = self._dirty_set.pop()
+            f = self.funcs[k]
+            before = len(self.funcs)
+            new = self._analyse(f)
+            old = self.summ.get(k, {})
+            if set(new) - set(old):
+                merged = dict(old)
+                for kk, v in new.items():
+                    merged.setdefault(kk, v)
+                self.summ[k] = merged
+                for caller in self.redges.get(k, ()):  # callers must be re-analysed
+                    self._dirty_set.add(caller)
+            if len(self.funcs) > before:
+                # functions discovered late (indirect targets resolved during this round)
+                for k2 in list(self.funcs)[before:]:
+                    self._dirty_set.add(k2)
+                self._dirty_set.add(k)
         return sorted(self.summ.get(id(fn), {}).values(), key=lambda e: (e.exc, e.fn, e.what))
 
     def reachable(self, fn: Func) -> list[Func]:
@@ -316,6 +326,7 @@ class ExcAnalysis:
                 continue
             self.funcs[id(f)] = f
             self.summ.setdefault(id(f), {})
+            self._dirty_set.add(id(f))
             self._analyse(f, discover=work)
 
     # ------------------------------------------------------------------ per function
@@ -337,6 +348,7 @@ class ExcAnalysis:
 
     def _callee(self, g: Func) -> dict[tuple, Esc]:
         self.edges[id(self._fn)].add(id(g))
+        self.redges.setdefault(id(g), set()).add(id(self._fn))
         if id(g) not in self.funcs:
             if self._discover is not None:
                 self._discover.append(g)
@@ -505,7 +517,10 @@ class ExcAnalysis:
                 for g in n.generators:
                     out.extend(self._iter_protocol(g.iter, fn))
             if isinstance(n, (ast.BinOp, ast.UnaryOp, ast.Compare, ast.Attribute, ast.Subscript, ast.Call)):
-                for node, f in self.R.implicit_calls(n, fn):
+                ik = id(n)
+                if ik not in self._imp_cache:
+                    self._imp_cache[ik] = self.R.implicit_calls(n, fn)
+                for node, f in self._imp_cache[ik]:
                     out.extend(self._bind_callee(f, None, fn, node))
         return out
 
@@ -572,18 +587,23 @@ class ExcAnalysis:
         self.calls_seen += 1
         out: list[Esc] = []
         targets: list[Func] | None = None
-        if self.cfg.indirect is not None:
-            targets = self.cfg.indirect(call, fn)
         how = "resolved"
-        if targets is None:
-            targets, how = self.R.callees(call, fn, count=False)
-            if how in ("external", "unresolved") or (how == "fallback" and isinstance(call.func, ast.Name)):
-                ind = self.resolve_callable(call.func, fn, 0, set())
-                if ind is not None:
-                    targets, how = ind, "resolved"
-        if how == "fallback":
-            # name-based over-approximation: keep only when unique, otherwise try receiver hints
-            targets = self._narrow_fallback(call, fn, targets)
+        ck = id(call)
+        if ck in self._tg_cache:
+            targets, how = self._tg_cache[ck]
+        else:
+            if self.cfg.indirect is not None:
+                targets = self.cfg.indirect(call, fn)
+            if targets is None:
+                targets, how = self.R.callees(call, fn, count=False)
+                if how in ("external", "unresolved") or (how == "fallback" and isinstance(call.func, ast.Name)):
+                    ind = self.resolve_callable(call.func, fn, 0, set())
+                    if ind is not None:
+                        targets, how = ind, "resolved"
+            if how == "fallback":
+                # name-based over-approximation: keep only when unique, otherwise try receiver hints
+                targets = self._narrow_fallback(call, fn, targets or [])
+            self._tg_cache[ck] = (targets, how)
         if targets:
             for g in targets:
                 out.extend(self._bind_callee(g, call, fn, call))
@@ -609,8 +629,38 @@ class ExcAnalysis:
                         tg, _ = self.R.callees(n, f, count=False)
                         for t in tg:
                             cs.setdefault(id(t), []).append((f, n))
+            # calls in class-level initialisers (handler tables built from factory calls)
+            for c in self.M.all_classes():
+                for attr, val in c.assigns.items():
+                    h = self.classbody_holder(c, attr, val)
+                    for n in ast.walk(val):
+                        if isinstance(n, ast.Lambda):
+                            continue
+                        if isinstance(n, ast.Call) and self.M.func_of_node.get(id(n)) is None:
+                            if self._inside_lambda(n, val):
+                                continue
+                            tg, _ = self.R.callees(n, h, count=False)
+                            for t in tg:
+                                cs.setdefault(id(t), []).append((h, n))
             self._callsites = cs
         return self._callsites
+
+    _holders: dict[tuple[int, str], Func] = {}
+
+    def classbody_holder(self, c: Cls, attr: str, val: ast.expr) -> Func:
+        k = (id(c), attr)
+        if k not in self._holders:
+            self._holders[k] = Func("<classbody>", c.qual + ".<classbody>", c.mod, ast.Lambda(args=ast.arguments(posonlyargs=[], args=[], kwonlyargs=[], kw_defaults=[], defaults=[]), body=val, lineno=getattr(val, "lineno", 1), col_offset=0), c, None, set(), "function")
+        return self._holders[k]
+
+    @staticmethod
+    def _inside_lambda(n: ast.AST, root: ast.AST) -> bool:
+        cur = getattr(n, "_parent", None)
+        while cur is not None and cur is not root:
+            if isinstance(cur, ast.Lambda):
+                return True
+            cur = getattr(cur, "_parent", None)
+        return False
 
     def resolve_callable(self, e: ast.expr, fn: Func, depth: int, seen: set) -> list[Func] | None:
         """Functions that may flow to the callable expression `e` evaluated in fn; None when unknown."""
@@ -960,7 +1010,13 @@ class ExcAnalysis:
             if name == "int" and call.args:
                 if at[0] not in ("int", "bool", "float"):
                     if at[0] == "str" or at[0] is None:
-                        out.extend(self._op("ValueError", call, fn))
+                        a0 = unparse(call.args[0])
+                        fa = self.facts(call, fn)
+                        if ("'0'", "<=", a0) in fa and (a0, "<=", "'9'") in fa:
+                            self.ops_seen += 1
+                            self.discharged[("ValueError", fn.qual, unparse(call)[:100])] = f"dominated by the ASCII digit test '0' <= {a0} <= '9'"
+                        else:
+                            out.extend(self._op("ValueError", call, fn))
             elif name == "float" and call.args and at[0] in ("str", None):
                 out.extend(self._op("ValueError", call, fn))
             elif name == "next" and len(call.args) == 1:
@@ -1101,9 +1157,103 @@ class ExcAnalysis:
             return []
         return self._op(kind, n, fn)
 
+    def facts(self, node: ast.AST, fn: Func) -> set[tuple[str, str, str]]:
+        """facts_at(node) closed under unfolding of boolean properties of self (`self.has_more_characters` = its returned test)."""
+        fa = set(facts_at(node))
+        if fn.cls is None:
+            return fa
+        for (l, op, r) in list(fa):
+            if op in ("truthy", "falsy") and l.startswith((fn.self_name or "self") + ".") and l.count(".") == 1:
+                pf = self.M.find_method(fn.cls, mangle(fn.cls.name, l.split(".")[1]))
+                if pf is not None and pf.kind == "property" and not isinstance(pf.node, ast.Lambda):
+                    body = pf.body
+                    if len(body) == 1 and isinstance(body[0], ast.Return) and body[0].value is not None and (pf.self_name or "self") == (fn.self_name or "self"):
+                        fa |= atoms(body[0].value, op == "truthy")
+        return fa
+
+    def _len_equiv(self, e: str, base: str, fn: Func) -> bool:
+        """`e` denotes len(base): literally, or `self.length` when base is `self.value` of a text cursor whose constructor
+        stores the text and its length together (checked on the class)."""
+        if e == f"len({base})":
+            return True
+        sn = fn.self_name or "self"
+        if fn.cls is not None and e == f"{sn}.length" and base == f"{sn}.value":
+            return self._cursor_length_invariant(fn.cls)
+        return False
+
+    _cli: dict[int, bool] = {}
+
+    def _cursor_length_invariant(self, c: Cls) -> bool:
+        if id(c) not in self._cli:
+            ok = False
+            for k in self.M.mro(c):
+                init = k.methods.get("__init__")
+                if init is None or isinstance(init.node, ast.Lambda):
+                    continue
+                st = {unparse(n.targets[0]): unparse(n.value) for n in own_nodes(init.node) if isinstance(n, ast.Assign) and len(n.targets) == 1}
+                vfield = next((t for t, v in st.items() if v == "value"), None)
+                lfield = next((t for t, v in st.items() if v == "len(value)"), None)
+                if vfield and lfield:
+                    # the properties return those fields, and nothing else stores them
+                    pv, pl = k.methods.get("value"), k.methods.get("length")
+                    rets = lambda f: [unparse(n.value) for n in own_nodes(f.node) if isinstance(n, ast.Return) and n.value is not None] if f is not None else []
+                    stores = [unparse(t) for f2 in k.all_defs if not isinstance(f2.node, ast.Lambda) and f2.name != "__init__" for n in own_nodes(f2.node) if isinstance(n, (ast.Assign, ast.AugAssign, ast.AnnAssign)) for t in (n.targets if isinstance(n, ast.Assign) else [n.target])]
+                    ok = rets(pv) == [vfield] and rets(pl) == [lfield] and vfield not in stores and lfield not in stores
+                    break
+            self._cli[id(c)] = ok
+        return self._cli[id(c)]
+
+    def _upper_bounded(self, idx: str, base: str, n: ast.AST, fn: Func, facts: set[tuple[str, str, str]], depth: int = 0) -> str | None:
+        """idx < len(base) follows from the facts (directly, or through a bound variable defined as min(..., len, ...))."""
+        for (l, op, r) in facts:
+            if l != idx or op not in ("<", "<="):
+                continue
+            if op == "<" and self._len_equiv(r, base, fn):
+                return f"{idx} < {r}"
+            if op == "<" and depth < 2 and r.isidentifier():
+                defs = sorted(self.R.scope(fn).defs.get(r, []), key=lambda d: (getattr(d, "lineno", 0), getattr(d, "col_offset", 0)))
+                # the definition in force: the last one textually before the use
+                defs = [d for d in defs if getattr(d, "lineno", 0) <= getattr(n, "lineno", 0)]
+                if defs and self._min_with_len(defs[-1], base, fn):
+                    return f"{idx} < {r} and {r} = {unparse(defs[-1])[:50]}"
+        return None
+
+    def _min_with_len(self, d: ast.expr, base: str, fn: Func) -> bool:
+        return isinstance(d, ast.Call) and isinstance(d.func, ast.Name) and d.func.id == "min" and any(self._len_equiv(unparse(a), base, fn) for a in d.args)
+
     def _subscript_safe(self, n: ast.Subscript, fn: Func, rt: Any) -> str | None:
         base, idx = unparse(n.value), unparse(n.slice)
-        facts = facts_at(n)
+        facts = self.facts(n, fn)
+        # `self.index` right after `self.__index = t`: the property returns the field just stored
+        stmt: Any = n
+        while stmt is not None and not isinstance(stmt, ast.stmt):
+            stmt = getattr(stmt, "_parent", None)
+        par = getattr(stmt, "_parent", None)
+        blk = next((getattr(par, fld) for fld in ("body", "orelse", "finalbody") if isinstance(getattr(par, fld, None), list) and stmt in getattr(par, fld)), None) if par is not None else None
+        if blk is not None and fn.cls is not None:
+            i0 = blk.index(stmt)
+            sn = fn.self_name or "self"
+            for prev in reversed(blk[:i0]):
+                if isinstance(prev, ast.Assign) and len(prev.targets) == 1 and isinstance(prev.targets[0], ast.Attribute) and unparse(prev.targets[0].value) == sn:
+                    fld_name = mangle(fn.cls.name, prev.targets[0].attr)
+                    for pname, pf in fn.cls.methods.items():
+                        if pf.kind == "property" and not isinstance(pf.node, ast.Lambda) and len(pf.body) == 1 and isinstance(pf.body[0], ast.Return) and pf.body[0].value is not None and isinstance(pf.body[0].value, ast.Attribute) and mangle(fn.cls.name, pf.body[0].value.attr) == fld_name:
+                            alias_from, alias_to = f"{sn}.{pname}", unparse(prev.value)
+                            if alias_from in idx:
+                                idx2 = idx.replace(alias_from, alias_to)
+                                ub = self._upper_bounded(idx2, base, n, fn, facts)
+                                if ub:
+                                    return f"index is the value just stored ({alias_from} = {alias_to}); {ub}"
+                    break
+                if not isinstance(prev, (ast.Assign, ast.AnnAssign, ast.Expr)):
+                    break
+        ub = self._upper_bounded(idx, base, n, fn, facts)
+        if ub:
+            return f"dominated by {ub} (a negative index can only fail on an empty text)"
+        # idx + k < len  <=>  fact (idx + k, <, len)
+        for (l, op, r) in facts:
+            if l == idx and op == "<" and self._len_equiv(r, base, fn):
+                return f"dominated by {l} < {r}"
         iv = self._fold(n.slice, fn)
         # constant table with constant index
         tv = self._fold(n.value, fn)
@@ -1219,7 +1369,7 @@ class ExcAnalysis:
                 return []
             return self._op("ZeroDivisionError", node or n, fn)
         d = unparse(n.right)
-        facts = facts_at(node or n)
+        facts = self.facts(node or n, fn)
         if any(l == d and ((op in (">", "!=") and r == "0") or (op == ">=" and r == "1")) for (l, op, r) in facts):
             return []
         cond: tuple[str, ...] = ()
